@@ -35,6 +35,52 @@ import (
 	"strings"
 )
 
+// hot lists the functions that touch package-level state or synchronisation:
+// the scheduler's site policy aims preemptions at them.
+var hot = map[string]bool{}
+
+var syncish = map[string]bool{"Lock": true, "Unlock": true, "RLock": true, "RUnlock": true, "Do": true, "Wait": true, "Done": true,
+	"Load": true, "Store": true, "Swap": true, "CompareAndSwap": true, "Get": true, "Put": true, "Add": false}
+
+func markHot(p *pkgInfo, f *ast.File) {
+	globals := map[string]bool{}
+	for _, g := range p.globals {
+		globals[g] = true
+	}
+	for _, d := range f.Decls {
+		fd, ok := d.(*ast.FuncDecl)
+		if !ok || fd.Body == nil {
+			continue
+		}
+		fn := fd.Name.Name
+		if fd.Recv != nil && len(fd.Recv.List) == 1 {
+			fn = recvName(fd.Recv.List[0].Type) + "." + fd.Name.Name
+		}
+		ast.Inspect(fd.Body, func(n ast.Node) bool {
+			switch t := n.(type) {
+			case *ast.Ident:
+				if globals[t.Name] && t.Obj == nil || (t.Obj != nil && t.Obj.Kind == ast.Var && globals[t.Name] && t.Obj.Pos() < fd.Pos()) {
+					hot[fn] = true
+				}
+			case *ast.GoStmt:
+				hot[fn] = true
+			case *ast.SelectorExpr:
+				if syncish[t.Sel.Name] {
+					if id, ok := t.X.(*ast.Ident); ok && (globals[id.Name] || id.Name == "atomic" || id.Name == "sync") {
+						hot[fn] = true
+					}
+					if inner, ok := t.X.(*ast.SelectorExpr); ok {
+						if id, ok := inner.X.(*ast.Ident); ok && globals[id.Name] {
+							hot[fn] = true
+						}
+					}
+				}
+			}
+			return true
+		})
+	}
+}
+
 type site struct {
 	ID   uint32 `json:"id"`
 	File string `json:"file"`
@@ -118,6 +164,9 @@ func main() {
 			scanBlocking(af)
 		}
 		sort.Strings(p.globals)
+		for _, f := range p.files {
+			markHot(p, parsed[f])
+		}
 		// globals registration file
 		var b bytes.Buffer
 		fmt.Fprintf(&b, "//go:build verif\n\npackage %s\n\nimport simrt %q\n\n", p.name, modPath+"/internal/simrt")
@@ -149,7 +198,12 @@ func main() {
 	if err := os.WriteFile(filepath.Join(*out, "overlay.json"), oj, 0o644); err != nil {
 		die("%v", err)
 	}
-	sj, _ := json.Marshal(map[string]any{"mode": *mode, "sites": sites, "go_stmts": goCount, "module": modPath, "may_block": mayBlock})
+	var hotList []string
+	for k := range hot {
+		hotList = append(hotList, k)
+	}
+	sort.Strings(hotList)
+	sj, _ := json.Marshal(map[string]any{"mode": *mode, "sites": sites, "go_stmts": goCount, "module": modPath, "may_block": mayBlock, "hot_funcs": hotList})
 	if err := os.WriteFile(filepath.Join(*out, "sites.json"), sj, 0o644); err != nil {
 		die("%v", err)
 	}
